@@ -27,8 +27,9 @@ import extract  # noqa: E402
 
 REPO = os.environ.get("VERIF_REPO", "/repo")
 SCRATCH_ROOT = os.environ.get("VERIF_SCRATCH", "/var/tmp/vrp-verif")
-MEM_CAP_GB = int(os.environ.get("VERIF_MEM_GB", "20"))
-JOBS = int(os.environ.get("VERIF_JOBS", "14"))
+MEM_CAP_GB = int(os.environ.get("VERIF_MEM_GB", "9"))      # address-space cap per verifier process (a harness may raise it: "mem_gb")
+JOBS = int(os.environ.get("VERIF_JOBS", "6"))            # verifier processes running at the same time, across all units of a check
+_slots = threading.BoundedSemaphore(JOBS)
 KANI_FLAGS = ["-Z", "function-contracts", "-Z", "stubbing", "-Z", "concrete-playback", "--concrete-playback=print"]
 
 _print_lock = threading.Lock()
@@ -70,13 +71,15 @@ def load_known():
 
 # ------------------------------------------------------------------ subprocess helper
 
-def _limits():
-    os.setsid()
-    cap = MEM_CAP_GB * (1 << 30)
-    resource.setrlimit(resource.RLIMIT_AS, (cap, cap))
+def _limits_for(gb):
+    def f():
+        os.setsid()
+        cap = gb * (1 << 30)
+        resource.setrlimit(resource.RLIMIT_AS, (cap, cap))
+    return f
 
 
-def run_cmd(cmd, cwd, timeout, env=None, mem_cap=True):
+def run_cmd(cmd, cwd, timeout, env=None, mem_cap=True, mem_gb=None):
     e = dict(os.environ)
     e["CARGO_NET_OFFLINE"] = "true"
     e.pop("RUSTFLAGS", None)
@@ -84,7 +87,7 @@ def run_cmd(cmd, cwd, timeout, env=None, mem_cap=True):
         e.update(env)
     t0 = time.time()
     p = subprocess.Popen(cmd, cwd=cwd, stdout=subprocess.PIPE, stderr=subprocess.STDOUT, env=e,
-                         preexec_fn=_limits if mem_cap else os.setsid, text=True, errors="replace")
+                         preexec_fn=_limits_for(mem_gb or MEM_CAP_GB) if mem_cap else os.setsid, text=True, errors="replace")
     try:
         out, _ = p.communicate(timeout=timeout)
         timed_out = False
@@ -308,7 +311,7 @@ def run_verus_unit(u, tier, scratch):
 
 def parse_kani(out):
     r = {"checks": [], "failed": [], "covers": [], "verdict": None, "playback": [], "time_s": None, "stubs": []}
-    for m in re.finditer(r"Check (\d+): (\S+)\n\s+- Status: (\w+)\n\s+- Description: \"(.*?)\"\n\s+- Location: (.*)", out):
+    for m in re.finditer(r"Check (\d+): (.+)\n\s+- Status: (\w+)\n\s+- Description: \"(.*?)\"\n\s+- Location: (.*)", out):
         c = {"id": m.group(2), "status": m.group(3), "desc": m.group(4), "loc": m.group(5).strip()}
         if ".cover." in c["id"] or c["desc"].startswith("cover condition"):
             r["covers"].append(c)
@@ -351,7 +354,8 @@ def prepare_kani_unit(u, scratch):
 
 def run_kani_harness(u, h, workdir, cargo_args, timeout):
     cmd = ["cargo", "kani"] + cargo_args + KANI_FLAGS + u.get("kani_flags", []) + h.get("kani_flags", []) + ["--harness", h["name"], "--exact"]
-    rc, out, wall, to = run_cmd(cmd, workdir, timeout)
+    with _slots:
+        rc, out, wall, to = run_cmd(cmd, workdir, timeout, mem_gb=h.get("mem_gb"))
     return cmd, rc, out, wall, to
 
 
@@ -377,9 +381,12 @@ def native_playback(u, h, workdir, cargo_args, harness_path, test_src):
                 if it.children:
                     walk(it.children)
         walk(s.items)
-        if target is None:
-            return {"ran": False, "why": "harness fn not found for playback insertion"}
-        pos = s.toks[target.last].e
+        if target is not None:
+            pos = s.toks[target.last].e
+        elif u["mode"] == "KO":
+            pos = len(src)                      # macro-generated harness: the harness file is the module, append at its end
+        else:
+            pos = src.rstrip().rfind("}")       # macro-generated harness inside `mod h { … }` which closes the file
         new = src[:pos] + "\n" + test_src + "\n" + src[pos:]
         open(harness_path, "w").write(new)
         cmd = ["cargo", "kani", "playback"] + cargo_args + ["-Z", "concrete-playback"] + u.get("playback_flags", []) + ["--", tname]
@@ -440,10 +447,11 @@ def run_kani_unit(u, tier, scratch, pid, known):
         if to:
             ob["status"] = "timeout"
             any_undecided = any_undecided or f"harness {h['name']} timed out after {int(wall)} s"
-        elif k["verdict"] is None:
+        elif k["verdict"] is None or "CBMC failed" in out or "run out of memory" in out or "CBMC timed out" in out or "std::bad_alloc" in out:
+            # the back end died (memory cap, crash): whatever statuses were printed are not trustworthy
             ob["status"] = "error"
             res["verifier_output"] = out[-6000:]
-            any_undecided = any_undecided or f"harness {h['name']}: no verdict (rc={rc}; memory cap or tool error)"
+            any_undecided = any_undecided or f"harness {h['name']}: back end failed or ran out of memory (rc={rc}, cap {h.get('mem_gb') or MEM_CAP_GB} GB)"
         else:
             unwind = [c for c in k["failed"] if "unwinding assertion" in c["desc"]]
             unsupported = [c for c in k["failed"] if "is not currently supported by Kani" in c["desc"] or c["status"] == "UNDETERMINED"]
@@ -602,8 +610,12 @@ def report(pid, tier, results, known, prop, wall):
     real_viol = []
     for path, has_input, r, f in viol:
         nr = f.get("native_replay") or {}
-        if f.get("counterexample") and nr.get("ran") and not nr.get("reproduced"):
-            undec.append({"unit": r["unit"], "diagnostic": f"spurious counterexample for {f['obligation']}: does not reproduce natively (environment too weak / solver imprecision); see {path}"})
+        if r["mode"] != "V" and not (f.get("counterexample") and nr.get("ran") and nr.get("reproduced")):
+            # Kani always has a trace for a genuine failure; one that cannot be turned into a concrete input, or whose
+            # input does not make the same harness fail natively, is a tool artefact (solver imprecision, back-end
+            # trouble, environment too weak): undecided, never an alarm
+            why = "does not reproduce natively" if nr.get("ran") else "no concrete counterexample could be replayed"
+            undec.append({"unit": r["unit"], "diagnostic": f"unconfirmed counterexample for {f['obligation']}: {why}; see {path}"})
             continue
         real_viol.append((path, has_input, r, f))
     write_evidence(pid, tier, seed, manifest_level, results, known_hits, real_viol, undec, wall)
